@@ -30,6 +30,11 @@ Definition check_state (m : outcome (state (T:=float))) (spec : list cf) (valid 
 
 Definition check_ps_apply (par : bool) (P : fps) (n : N) (v : list cf) (r : pimpl) : N :=
   check_state (ps_apply fops par P (mkState n v)) (if keys_okb n (pops P) then map (ps_action fops P v) (Nrange (2^n)) else []) (keys_okb n (pops P)) v r.
+(* apply_normalised: the Pauli product without the coefficient, renormalised *)
+Definition check_ps_normalised (par : bool) (P : fps) (n : N) (v : list cf) (r : pimpl) : N :=
+  let w := map (ps_action fops (mkPS (pops P) (c1 fops)) v) (Nrange (2^n)) in
+  let nrm := ssqrt fops (norm2_vec fops w) in
+  check_state (ps_apply_normalised fops par P (mkState n v)) (if keys_okb n (pops P) then map (fun a => cdivr fops a nrm) w else []) (keys_okb n (pops P)) v r.
 Definition check_sum_apply (par : bool) (H : list fps) (n : N) (v : list cf) (r : pimpl) : N :=
   check_state (sumop_apply fops par H (mkState n v)) (if sum_okb n H then map (sum_action fops H v) (Nrange (2^n)) else []) (sum_okb n H) v r.
 Definition check_expect (par : bool) (H : list fps) (n : N) (v : list cf) (r : pimpl) : N :=
